@@ -184,7 +184,7 @@ class RefServer:
         env['PYTHONHASHSEED'] = CANONICAL_HASHSEED
         # the reference lives in the canonical environment
         for k in [k for k in env if k.startswith('PROPKA_')] + ['TZ', 'LC_ALL', 'COLUMNS',
-                                                                'XDG_CONFIG_HOME', 'PYTHONMALLOC']:
+                                                                'XDG_CONFIG_HOME', 'PYTHONMALLOC', 'PYTHONOPTIMIZE']:
             env.pop(k, None)
         env['HOME'] = env.get('VERIF_CANONICAL_HOME', '/root')
         env['LANG'] = 'C.UTF-8'
